@@ -42,11 +42,12 @@ class CStub:
     def map_args(self, args, kwargs, context, engine):
         if not self.maps:
             return None
-        pos = tuple(PStub((LazyTStub if self.lazy[i] else TStub)(self.cid, i, self.S)) for i in range(len(args)))
-        return pos, {}
+        n = len(args) + len(kwargs)
+        ps = [PStub((LazyTStub if self.lazy[i] else TStub)(self.cid, i, self.S)) for i in range(n)]
+        return tuple(ps[:len(args)]), {k: ps[len(args) + j] for j, k in enumerate(sorted(kwargs))}
 
     def get_delegate(self, receiver, engine, context, args, kwargs):
-        self.log.append(('delegate', self.cid, tuple(args)))
+        self.log.append(('delegate', self.cid, tuple(args) + tuple(sorted(kwargs.items()))))
         if not self.deleg:
             raise exceptions.ArgumentException('x')
         return lambda: ('ran', self.cid)
@@ -106,8 +107,8 @@ def reference(n, npos, S, maps, deleg, lazy, nokw, layers, order, has_receiver):
     return nf, 1
 
 
-def run(n, npos, S, maps, deleg, lazy, nokw, layers, order, has_receiver):
-    """drive the REAL runner.choose_overload with stubs; -> (outcome, log)"""
+def run(n, npos, S, maps, deleg, lazy, nokw, layers, order, has_receiver, kwmode=False):
+    """drive the REAL runner.choose_overload with stubs; -> (outcome, log).  kwmode: the last position is passed by keyword"""
     log = []
     cands = [CStub(i, nokw[i], maps[i], deleg[i], lazy[i], S, log) for i in range(n)]
     levels = []
@@ -119,8 +120,12 @@ def run(n, npos, S, maps, deleg, lazy, nokw, layers, order, has_receiver):
     else:
         receiver = utils.NO_VALUE
         args = tuple(Probe(k, log) for k in range(npos))
+    kwargs = {}
+    if kwmode and len(args) > 1:
+        kwargs = {'k1': args[-1]}
+        args = args[:-1]
     try:
-        out = runner.choose_overload('f', levels, None, receiver, None, args, {})()
+        out = runner.choose_overload('f', levels, None, receiver, None, args, kwargs)()
     except (exceptions.AmbiguousFunctionException, exceptions.AmbiguousMethodException,
             exceptions.NoMatchingFunctionException, exceptions.NoMatchingMethodException) as e:
         out = type(e).__name__
@@ -141,6 +146,10 @@ def evals_ok(log, npos, lazy_row, has_receiver, expect_eval):
             return False
     seen = [e[2] for e in log if e[0] == 'delegate']
     return all(s == seen[0] for s in seen)
+
+
+def delegate_log(self, receiver, engine, context, args, kwargs):
+    return tuple(args) + tuple(sorted(kwargs.items()))
 
 
 # ---------------------------------------------------------------- replay with REAL overloads
